@@ -976,7 +976,6 @@ func (p *Policy) addDefaultElementsWithoutAttrs() {
 func (p *Policy) addDefaultSkipElementContent() {
 	p.init()
 
-	p.setOfElementsToSkipContent["frame"] = struct{}{}
 	p.setOfElementsToSkipContent["frameset"] = struct{}{}
 	p.setOfElementsToSkipContent["iframe"] = struct{}{}
 	p.setOfElementsToSkipContent["noembed"] = struct{}{}
